@@ -3,8 +3,8 @@
 # committed evidence/*.json all come from unmutated runs of the final machinery.  Log: .cache/final_evidence.log
 cd "$(dirname "$0")/.."
 if [ -n "$(git -C /repo status --short)" ]; then echo "/repo is not clean"; exit 2; fi
-: > .cache/final_evidence.log
+[ $# -gt 0 ] || : > .cache/final_evidence.log
 run1() { p=$1; s=$(date +%s); ./check $p --tier quick > .cache/final_$p.log 2>&1; rc=$?; echo "$p exit $rc $(( $(date +%s) - s ))s viol=$(grep -c '^VIOLATION' .cache/final_$p.log)" >> .cache/final_evidence.log; }
 export -f run1
-cat props/claimed.txt | xargs -P 3 -I{} bash -c 'run1 {}'
+(if [ $# -gt 0 ]; then printf "%s\n" "$@"; else cat props/claimed.txt; fi) | xargs -P 3 -I{} bash -c 'run1 {}'
 sort .cache/final_evidence.log
